@@ -506,6 +506,17 @@ TypeOK == /\ pc \in {"idle", "ro", "ro_done", "stopio", "quorum", "positions", "
                      "update_active", "writable", "set_master", "finish"}
           /\ zactive \subseteq Host /\ zrecovery \subseteq Host
 
+\* LIVENESS (C06, temporal form of "never stays pending past the attempt limit"): with a manager that keeps
+\* taking steps (weak fairness of the manager's actions; MySQL-side failures, server crashes and manager crashes
+\* within their budgets at any point) a PLANNED request is eventually removed - succeeded or rejected.
+\* Failover-type requests are retried for as long as they cannot be served (the timeout is not part of this model).
+MgrStep == \/ Start \/ RoDone \/ QuorumRecount \/ Positions \/ PositionsNoCandidate
+           \/ CuOnline \/ CuStop \/ CuChange \/ CuStart \/ Catchup \/ Resnap \/ OnlineNew
+           \/ RecMark \/ StopNew \/ ResetNew \/ UpdateActive \/ Writable \/ SetMaster \/ Finish
+           \/ \E h \in Host : RoStep(h) \/ StopIOStep(h) \/ ChangeStep(h)
+LiveSpec == Spec /\ WF_vars(MgrStep)
+C06_PlannedResolved == (zswitch.cause # "none" /\ zswitch.trans # "failover") ~> (zswitch.cause = "none")
+
 \* the model implements the control skeleton the real activations are validated against (SwitchSkel.tla)
 SkelOrder == [][pc' # pc \/ pc \in {"ro", "stopio", "change"} => Edge(pc, pc')]_pc
 
